@@ -11,6 +11,14 @@
  *                                               after the source has been parsed successfully: an error reported
  *                                               before this marker is a parse-time error
  * Usage and output are otherwise those of the hawk CLI.
+ *
+ * 3. API mode (an embedding application that keeps ONE runtime context and calls into it repeatedly):
+ *       depth_h --c14-api <source file> <function>:<integer argument> ...
+ *    opens hawk with hawk_openstd(), sets the five depth options and the stack limit from the C14_* variables
+ *    (a missing variable = 0), parses the file, opens one rtx and performs the calls in order with
+ *    hawk_rtx_callwithbcstrarr(), printing one line per call:
+ *       call <i> <function> ok <value>        or        call <i> <function> err <number> <message>
+ *    An error in one call does not end the sequence: the next call runs on the same rtx.
  */
 #include <hawk.h>
 #include <hawk-std.h>
@@ -22,7 +30,9 @@ static hawk_rtx_t* c14_rtx_open (hawk_t* hawk, hawk_oow_t xtnsize, const hawk_bc
 
 #define hawk_setopt c14_setopt
 #define hawk_rtx_openstdwithbcstr c14_rtx_open
+#define main c14_cli_main
 #include "../bin/hawk.c"
+#undef main
 #undef hawk_setopt
 #undef hawk_rtx_openstdwithbcstr
 
@@ -89,4 +99,82 @@ static int c14_setopt (hawk_t* hawk, hawk_opt_t id, const void* value)
 		}
 	}
 	return n;
+}
+
+static int c14_api_main (int argc, char* argv[])
+{
+	static const struct { hawk_opt_t id; const char* env; } opts[] =
+	{
+		{ HAWK_OPT_DEPTH_INCLUDE, "C14_INCL" }, { HAWK_OPT_DEPTH_BLOCK_PARSE, "C14_BLOCK_PARSE" },
+		{ HAWK_OPT_DEPTH_BLOCK_RUN, "C14_BLOCK_RUN" }, { HAWK_OPT_DEPTH_EXPR_PARSE, "C14_EXPR_PARSE" },
+		{ HAWK_OPT_DEPTH_EXPR_RUN, "C14_EXPR_RUN" }
+	};
+	hawk_t* hawk;
+	hawk_rtx_t* rtx;
+	hawk_parsestd_t psin[2];
+	hawk_oow_t v;
+	int i;
+
+	if (argc < 3) { fprintf (stderr, "usage: %s --c14-api file fn:arg ...\n", argv[0]); return 2; }
+	hawk = hawk_openstd(0, HAWK_NULL);
+	if (!hawk) { printf ("open failed\n"); return 1; }
+	for (i = 0; i < 5; i++)
+	{
+		v = getenv(opts[i].env)? (hawk_oow_t)strtoull(getenv(opts[i].env), NULL, 10): 0;
+		hawk_setopt (hawk, opts[i].id, &v);
+	}
+	if (getenv("C14_STACK_LIMIT")) { v = (hawk_oow_t)strtoull(getenv("C14_STACK_LIMIT"), NULL, 10); hawk_setopt (hawk, HAWK_OPT_RTX_STACK_LIMIT, &v); }
+
+	memset (psin, 0, sizeof(psin));
+	psin[0].type = HAWK_PARSESTD_FILEB;
+	psin[0].u.fileb.path = argv[2];
+	psin[1].type = HAWK_PARSESTD_NULL;
+	if (hawk_parsestd(hawk, psin, HAWK_NULL) <= -1)
+	{
+		printf ("parse err %d %s\n", (int)hawk_geterrnum(hawk), hawk_geterrbmsg(hawk));
+		hawk_close (hawk);
+		return 1;
+	}
+	rtx = hawk_rtx_openstdwithbcstr(hawk, 0, "c14api", HAWK_NULL, HAWK_NULL, HAWK_NULL);
+	if (!rtx)
+	{
+		printf ("rtx err %d %s\n", (int)hawk_geterrnum(hawk), hawk_geterrbmsg(hawk));
+		hawk_close (hawk);
+		return 1;
+	}
+	for (i = 3; i < argc; i++)
+	{
+		char fn[128];
+		const char* colon = strchr(argv[i], ':');
+		const hawk_bch_t* args[1];
+		hawk_val_t* r;
+		size_t n = colon? (size_t)(colon - argv[i]): strlen(argv[i]);
+
+		if (n >= sizeof(fn)) n = sizeof(fn) - 1;
+		memcpy (fn, argv[i], n); fn[n] = 0;
+		args[0] = colon? colon + 1: "0";
+		r = hawk_rtx_callwithbcstrarr(rtx, fn, args, 1);
+		if (r)
+		{
+			hawk_oow_t len;
+			hawk_bch_t* str = hawk_rtx_valtobcstrdup(rtx, r, &len);
+			printf ("call %d %s ok %s\n", i - 2, fn, str? str: "?");
+			if (str) hawk_rtx_freemem (rtx, str);
+			hawk_rtx_refdownval (rtx, r);
+		}
+		else
+		{
+			printf ("call %d %s err %d %s\n", i - 2, fn, (int)hawk_rtx_geterrnum(rtx), hawk_rtx_geterrbmsg(rtx));
+		}
+		fflush (stdout);
+	}
+	hawk_rtx_close (rtx);
+	hawk_close (hawk);
+	return 0;
+}
+
+int main (int argc, char* argv[])
+{
+	if (argc >= 2 && strcmp(argv[1], "--c14-api") == 0) return c14_api_main(argc, argv);
+	return c14_cli_main(argc, argv);
 }
